@@ -12,6 +12,10 @@ package pxy
 //     the same (C05), plain ones stay plain.
 //   * api=skiplog / api=marksec: Context.SkipLogging(), Session.MarkSecure() on a session that is
 //     secure already - calls without any effect the proxy may show.
+//   * api=…,skiprt,…,apireq,…: ORDERED combinations of the context calls SkipRoundTrip, SkipLogging,
+//     APIRequest on one exchange (with rq=skip the SkipRoundTrip call is the one in the list, or comes
+//     first when the list has none); afterwards every flag's getter must report the union of the
+//     calls, and "skip" must still mean zero upstream contact.
 
 import (
 	"strings"
@@ -58,6 +62,38 @@ func apiCalls(list string, ctx *martian.Context) {
 			ctx.Session().MarkSecure()
 		case "insec":
 			ctx.Session().MarkInsecure()
+		case "skiprt":
+			ctx.SkipRoundTrip()
+		case "apireq":
+			ctx.APIRequest()
 		}
 	}
+}
+
+// wantFlags: the context flags after the request modifier's calls, from the script alone: every call
+// sets its own flag and no call clears another's (skip round trip, skip logging, API request).
+func wantFlags(it *item) string {
+	rt, lg, ap := false, false, false
+	switch it.s("rq", "pass") {
+	case "skip", "errskip":
+		rt = true
+	}
+	for _, a := range strings.Split(it.s("api", ""), ",") {
+		switch a {
+		case "skiprt":
+			rt = true
+		case "skiplog":
+			lg = true
+		case "apireq":
+			ap = true
+		}
+	}
+	return b01(rt) + b01(lg) + b01(ap)
+}
+
+func seenFlags(ctx *martian.Context) string {
+	if ctx == nil {
+		return "---"
+	}
+	return b01(ctx.SkippingRoundTrip()) + b01(ctx.SkippingLogging()) + b01(ctx.IsAPIRequest())
 }
